@@ -50,9 +50,12 @@ Strategies:  models(max_classes=5, max_dex=4, max_sites=10, array_invokes=True, 
     classes (inherited, other overload, other field type, missing), external members, array receivers ('[I', '[[J',
     '[Lp/C0;', ...; switched off with array_invokes=False), array / internal / external types for the type users.
     Field opcodes follow the field's kind and type, so the ten field types x static/instance x read/write reach all 28.
+    About 1 site in 16..25 (profile dependent) is a ['mid', v] payload in the middle of the code, so that roughly half of the
+    models have reference instructions located behind a payload (payload_labels() measures it).
     profile ('mixed' | 'invokes' | 'fields' | 'strings') multiplies the weight of one instruction family.
 large_models(profile, array_invokes): a single-DEX model plus a 'bulk' plan that puts a drawn referenced item of each pool on
-    an index boundary (0x7fff / 0x8000 / 0x8001; in half of the cases one pool is filled up to 0xfffe / 0xffff, strings also
+    an index boundary (0x7fff / 0x8000 / 0x8001; in half of the cases one pool is filled up to 0xfffe / 0xffff (types: 0xfffd /
+    0xfffe, a DEX file has at most 65535 type_ids), strings also
     to 0x10000 with const-string turned into const-string/jumbo where the index no longer fits 16 bits).
 with_renames(models): adds a drawn 'renames' history (1..4 renames of defined fields and non-constructor methods).
 normalize(model): undo the tuple -> list conversion of a JSON round trip.
@@ -638,7 +641,8 @@ def _filler_strings(bulk):
 def plan_bulk(model, wants):
     """Turn `wants` = {'t'|'f'|'m'|'s': (pick, B)} into filler counts (model['bulk']) such that, in the single DEX file
     of the model, the pick-th (mod n) item of that pool that the code references gets index B (its pool neighbours B-1,
-    B+1, ..); pick = -1: the LAST item of the whole pool gets index B (so B = 0xffff fills the 16-bit index space exactly).
+    B+1, ..); pick = -1: the LAST item of the whole pool gets index B (so B = 0xffff fills the 16-bit index space exactly;
+    the type pool is capped at the format's limit of 65535 entries, i.e. last index 0xfffe).
     Returns the model (changed in place): const-string sites whose string index no longer fits 16 bits become
     const-string/jumbo. Every pool gets at least one filler (the auxiliary items La/F;, I, V are then always present);
     a target that cannot be met (B below the index the item has anyway) is ignored."""
@@ -665,6 +669,7 @@ def plan_bulk(model, wants):
             else:
                 at = cand[pick % len(cand)]
             counts[pool] = max(1, 1 + B - at)
+    counts['t'] = min(counts['t'], 65535 - (size['t'] - 1))       # type_ids_size is at most 65535 (DEX format)
     value_at = {i: v for v, i in ix.sidx.items()}
     probe_units = [G.units(f) for f in _filler_strings(probe)]
 
@@ -710,6 +715,8 @@ def large_models(draw, profile='mixed', array_invokes=True, max_sites=10):
             wants[pool] = (draw(st.integers(0, 7)), draw(st.sampled_from(NEAR_HALF)))
         elif pool == 's':
             wants[pool] = (draw(st.integers(0, 7)), draw(st.sampled_from([0xfffe, 0xffff, 0x10000])))
+        elif pool == 't':
+            wants[pool] = (-1, draw(st.sampled_from([0xfffd, 0xfffe])))         # at most 65535 type_ids in a DEX file
         else:
             wants[pool] = (-1, draw(st.sampled_from([0xfffe, 0xffff])))
     return plan_bulk(model, wants)
